@@ -277,6 +277,11 @@ class Executor(object):
             raw = z3.simplify(z3.Concat(*[z3.Select(p.obj.arr, z3.BitVecVal(off + i, 64)) for i in range(7, -1, -1)]))
             if conc(raw) == 0:
                 return NULL
+        if p.obj.kind == "heap" and p.obj.alloc == "malloc" and p.obj.name == "malloc" and z3.is_const(p.obj.arr) \
+                and p.obj.arr.decl().kind() == z3.Z3_OP_UNINTERPRETED \
+                and not any(o_ < off + 8 and o_ + n_ > off for o_, (n_, _v) in p.obj.cells.items()):
+            # a block from malloc nothing was ever stored into: its content is indeterminate
+            self.violation("uninitialised-read", "a pointer is read from %s+%d, malloc'ed memory that was never written" % (p.obj.name, off))
         # unknown memory read as a pointer
         hook = p.obj.tag.get("ptr_loader")
         if hook is not None:
